@@ -697,6 +697,52 @@ func main() {
 		f.b("clients_rendezvous_plain", methods == plain, "every request method: fresh unbuffered response channel, one send, one receive, no select / goroutine; exceptions: "+strings.Join(notPlain, ","))
 	}
 
+	// structural: the hooks goroutine is the only reader of hooks.Notify and hooks.NewStore, and the
+	// dispatcher sends to both with plain (blocking) sends: every place where HooksCaller.run waits must
+	// be a select that receives from both, or the dispatcher can block behind it
+	if fn := m.funcDecl("HooksCaller", "run"); fn != nil {
+		selects, both, ranges := 0, 0, 0
+		ast.Inspect(fn, func(n ast.Node) bool {
+			switch x := n.(type) {
+			case *ast.RangeStmt:
+				if strings.HasPrefix(exprString(x.X), "h.") {
+					ranges++
+				}
+			case *ast.SelectStmt:
+				selects++
+				hasN, hasS := false, false
+				for _, c := range x.Body.List {
+					cc := c.(*ast.CommClause)
+					var e ast.Expr
+					switch st := cc.Comm.(type) {
+					case *ast.ExprStmt:
+						e = st.X
+					case *ast.AssignStmt:
+						if len(st.Rhs) == 1 {
+							e = st.Rhs[0]
+						}
+					}
+					if u, ok := e.(*ast.UnaryExpr); ok && u.Op == token.ARROW {
+						switch exprString(u.X) {
+						case "h.Notify":
+							hasN = true
+						case "h.NewStore":
+							hasS = true
+						}
+					}
+				}
+				if hasN && hasS {
+					both++
+				}
+			}
+			return true
+		})
+		f.b("hooks_consumer_always_drains", selects >= 1 && selects == both && ranges == 0,
+			fmt.Sprintf("HooksCaller.run: %d select statements, %d receive from both h.Notify and h.NewStore, %d range loops over a channel", selects, both, ranges))
+	} else {
+		f.miss("(*HooksCaller).run")
+	}
+
 	// structural: hooks goroutine and remote upgrader never touch dispatcher channels
 	touch := 0
 	for _, name := range []struct{ r, n string }{{"HooksCaller", "run"}, {"HooksCaller", "runAllHooks"}, {"", "runHook"}, {"", "remoteHTTPUpgrader"}, {"", "remoteHTTPUpgrade"}} {
